@@ -534,6 +534,13 @@ def quantum_sources(ctx, tmp, fresh_target, viol):
                 payload = {"q": qi, "t": t.name, "det": det}
                 qbb.put(payload, ref)
                 expected[ref.id] = (ref, payload)
+            if len(outs) > 1 and rng.random() < 0.5:
+                # the task removes one of its outputs again before it finishes: that output is not part of the selection
+                gone_t = rng.choice(sorted(outs, key=lambda t_: t_.name))
+                (gone_ref,) = outs[gone_t]
+                qbb.pruneDatasets([gone_ref], purge=True, unstore=True, disassociate=True)
+                expected.pop(gone_ref.id)
+                ctx.count("quantum-backed:output-purged-before-provenance")
             quanta.append(quantum), provenance.append(qbb.extract_provenance_data()), qbbs.append((qbb, [r_ for (r_,) in outs.values()]))
 
         def audit(bt, label):
